@@ -81,6 +81,8 @@ PENDING["C19"]=dict(cat="model_checking", engine="histbfs", design="DESIGN.md §
    text="Threads: every interleaving of lock acquisitions for each scenario is executed on the real source; outcomes (return values + probes) must equal some sequential merge; no deadlock, panic or duplicate handle. Sequential: bounded-exhaustive call histories with stale/closed/null/forged handles and boundary buffer sizes, canaries on every buffer.",
    note="Trusted: loom, hook H1 facade (verif_sync). Code between two lock operations is atomic to the explorer; invalid pointers (as opposed to invalid handles/sizes) are the caller's contract.")
 NOT_APPLICABLE = {}
+import subprocess
+HOOK_COMMITS=[l.split()[0] for l in subprocess.run(['git','-C','/repo','log','--format=%h %s'],capture_output=True,text=True).stdout.splitlines() if ' verif hook ' in ' '+l]
 def main():
     checks=[]
     for pid,c in sorted(CHECKS.items()):
@@ -107,7 +109,7 @@ def main():
         "guard": "wowrs_verif",
         "enable": "RUSTFLAGS='--cfg wowrs_verif' (set only by the loom-based checks, own CARGO_TARGET_DIR); all other checks build /repo unmodified",
         "baseline_off_cmd": "cd /repo && cargo nextest run --workspace --no-fail-fast --tool-config-file pb:/w/lib/nextest.toml --profile pb --test-threads 8 --offline || cargo test --workspace --no-fail-fast --offline",
-        "source_commits": [],
+        "source_commits": HOOK_COMMITS,
         "add_only": True,
       },
       "engines": [
